@@ -548,17 +548,7 @@ func genVarCase(r *RNG, id string, o varOpts) *Case {
 	c.SetBool("agg", agg)
 	thrN, thrD := 0, 1
 	if agg {
-		n := len(m.rows)
-		switch r.Intn(4) {
-		case 0:
-		case 1:
-			thrN, thrD = 1, 1
-		case 2:
-			k := r.Range(1, n)
-			thrN, thrD = k*1000/n, 1000
-		default:
-			thrN, thrD = r.Range(0, 100), 100
-		}
+		thrN, thrD = genThreshold(r, len(m.rows))
 	}
 	c.SetInt("thrn", thrN).SetInt("thrd", thrD)
 	c.SetInt("threads", r.PickInt([]int{1, 2, 4}))
